@@ -284,3 +284,69 @@ def bind_params(expr: ast.AST, bind) -> ast.AST:
     if not bind:
         return expr
     return clear_norm_cache(ast.fix_missing_locations(_ParamSub(bind).visit(copy.deepcopy(expr))))
+
+
+class _ReturnInliner(ast.NodeTransformer):
+    """self.helper(args) -> the helper's single return expression with parameters bound (helpers whose body
+    is local assignments followed by one return)."""
+
+    def __init__(self, prog, resolver, func, cls, depth=0):
+        self.prog, self.resolver, self.func, self.cls, self.depth = prog, resolver, func, cls, depth
+
+    def visit_Call(self, node):
+        self.generic_visit(node)
+        if self.depth > 2 or not (isinstance(node.func, ast.Attribute) and dotted(node.func.value) in ("self", "cls")):
+            return node
+        try:
+            t = self.resolver.resolve(node, self.func, self.cls)
+        except Exception:
+            return node
+        if t is None or t.kind != "repo" or len(t.funcs) != 1:
+            return node
+        g = t.funcs[0]
+        body = [st for st in g.node.body if not (isinstance(st, ast.Expr) and isinstance(st.value, ast.Constant))]
+        if not body or not isinstance(body[-1], ast.Return) or body[-1].value is None:
+            return node
+        if any(not isinstance(st, (ast.Assign, ast.AnnAssign)) for st in body[:-1]) or \
+                sum(1 for x in ast.walk(g.node) if isinstance(x, ast.Return)) != 1:
+            return node
+        from .facts import expand_ast
+
+        ret = expand_ast(body[-1].value, g)
+        params = g.params[1:] if g.params and g.params[0] in ("self", "cls") else list(g.params)
+        bind = dict(zip(params, node.args))
+        bind.update({k.arg: k.value for k in node.keywords if k.arg})
+        out = bind_params(ret, bind)
+        return _ReturnInliner(self.prog, self.resolver, g, self.cls, self.depth + 1).visit(out)
+
+
+def attr_provenance(path, attr_text: str, func: FuncInfo, prog, resolver, cls, upto=None):
+    """Expression that `attr_text` (e.g. 'self.selector') holds along one walker path, written in terms of
+    what it held on entry: locals are replaced by their definitions, one-return helpers of the class by their
+    return expression, and each assignment's own mention of the attribute by the previous value.
+    `upto(event)` may stop the scan (e.g. at the handler lookup)."""
+    import copy
+
+    from .facts import expand_ast
+    from .loader import clear_norm_cache
+
+    cur = None
+    for ev in path.events:
+        if upto is not None and upto(ev):
+            break
+        if ev.kind != "assign" or ev.target != attr_text or not isinstance(ev.node, (ast.Assign, ast.AnnAssign)) or ev.frame[0] is not func:
+            continue
+        v = expand_ast(ev.node.value, func, ev.defs) if ev.defs else copy.deepcopy(ev.node.value)
+        v = _ReturnInliner(prog, resolver, func, cls).visit(copy.deepcopy(v))
+        if cur is not None:
+            prev = cur
+
+            class _Sub(ast.NodeTransformer):
+                def visit_Attribute(self, n):
+                    if norm(n) == attr_text and isinstance(n.ctx, ast.Load):
+                        return copy.deepcopy(prev)
+                    return self.generic_visit(n)
+
+            v = _Sub().visit(v)
+        cur = clear_norm_cache(ast.fix_missing_locations(v))
+    return cur
